@@ -163,6 +163,77 @@ Section TimeFormatted.
   Qed.
 End TimeFormatted.
 
+(** JMH: "Iteration<blanks><n>:<blanks><int>.<frac><blanks><unit>" (a measured iteration) *)
+Section JMH.
+  Variable U : uclass.
+  Definition s_Iteration : str := [73;116;101;114;97;116;105;111;110]%N.
+  Definition no_newline (s : str) : Prop := s <> [] /\ Forall (fun c => (c =? 10)%N = false) s.
+
+  Definition jmh_line (sp1 ds sp2 ip fp sp3 unit : str) : str :=
+    s_Iteration ++ sp1 ++ ds ++ [58%N] ++ sp2 ++ (ip ++ [46%N] ++ fp) ++ sp3 ++ unit.
+
+  Theorem jmh_line_classified sp1 ds sp2 ip fp sp3 unit :
+    blanks sp1 -> digits ds -> blanks sp2 -> digits ip -> digits fp -> blanks sp3 -> no_newline unit ->
+    stops U CSpace unit ->
+    jmh_classify U (jmh_line sp1 ds sp2 ip fp sp3 unit)
+    = LClose [mk_meas s_total (strip U unit) (VFloat (ip ++ [46%N] ++ fp))].
+  Proof.
+    intros [Hs1 Hs2] [Hd1 Hd2] [Ht1 Ht2] [Hi1 Hi2] [Hf1 Hf2] [Hu1 Hu2] [Hn1 Hn2] Hstop.
+    set (A := s_Iteration ++ sp1 ++ ds ++ [58%N] ++ sp2).
+    set (B := ip ++ [46%N] ++ fp).
+    assert (F : exists c1, first U jmh_re_result_line 0 (jmh_line sp1 ds sp2 ip fp sp3 unit) []
+                = Some ((4, (length A + length B + length sp3, length A + length B + length sp3 + length unit))
+                        :: (3, (length A, length A + length B)) :: c1,
+                        length A + length B + length sp3 + length unit, [])).
+    { unfold jmh_re_result_line, jmh_line, s_Iteration. cbn [app]. eexists.
+      eapply first_seq; [apply first_bol|].
+      eapply first_seq.
+      { apply first_grp. apply first_alt_left.
+        do 8 (eapply first_seq; [apply first_chr; reflexivity|]). apply first_chr. reflexivity. }
+      eapply first_seq.
+      { apply first_rep_class; [eapply Forall_impl'; [apply blank_is_space | exact Hs2] | | destruct sp1; [contradiction | simpl; lia]].
+        apply (stops_hd U _ ds _ ascii_digit Hd1 Hd2). apply digit_not_space. }
+      eapply first_seq.
+      { apply first_grp. apply first_rep_class; [eapply Forall_impl'; [apply digit_is_CDigit | exact Hd2] | reflexivity | destruct ds; [contradiction | simpl; lia]]. }
+      cbn [app]. eapply first_seq; [apply first_chr; reflexivity|].
+      eapply first_seq.
+      { apply first_rep_class; [eapply Forall_impl'; [apply blank_is_space | exact Ht2] | | destruct sp2; [contradiction | simpl; lia]].
+        rewrite <- app_assoc. apply (stops_hd U _ ip _ ascii_digit Hi1 Hi2). apply digit_not_space. }
+      eapply first_seq.
+      { apply first_grp. rewrite <- !app_assoc.
+        eapply first_seq.
+        { apply first_rep_class; [eapply Forall_impl'; [apply digit_is_CDigit | exact Hi2] | reflexivity | destruct ip; [contradiction | simpl; lia]]. }
+        cbn [app]. apply first_opt_some.
+        { eapply first_seq; [apply first_chr; reflexivity|].
+          apply first_rep_class; [eapply Forall_impl'; [apply digit_is_CDigit | exact Hf2] | | destruct fp; [contradiction | simpl; lia]].
+          apply (stops_hd U _ sp3 _ blank Hu1 Hu2). intros c Hc. destruct Hc; subst; reflexivity. }
+        { lia. } }
+      eapply first_seq.
+      { apply first_rep_class; [eapply Forall_impl'; [apply blank_is_space | exact Hu2] | exact Hstop | destruct sp3; [contradiction | simpl; lia]]. }
+      match goal with |- first U (Grp 4 _) ?p ?s ?c = _ =>
+        assert (G : first U (Rep 1 None (Chr CAny)) p s c = Some (c, p + length unit, [])) end.
+      { rewrite <- (app_nil_r unit) at 1. apply first_rep_class; [|exact I | destruct unit; [contradiction | simpl; lia]].
+        eapply Forall_impl'; [|exact Hn2]. intros c Hc. simpl. rewrite Hc. reflexivity. }
+      apply (first_grp U 4) in G. rewrite G.
+      assert (LA : length A = S (9 + length sp1 + length ds) + length sp2)
+        by (unfold A, s_Iteration; rewrite !app_length; simpl length; unfold str, ch; lia).
+      assert (LB : length B = length ip + 1 + length fp)
+        by (unfold B; rewrite !app_length; simpl length; unfold str, ch; lia).
+      rewrite LA, LB. repeat (f_equal; try (unfold str, ch; lia)). }
+    destruct F as [c1 F].
+    assert (L : jmh_line sp1 ds sp2 ip fp sp3 unit = A ++ B ++ (sp3 ++ unit))
+      by (unfold jmh_line, A, B; rewrite <- !app_assoc; reflexivity).
+    clearbody A B.
+    unfold jmh_classify. rewrite (match_of_first U _ _ _ _ _ F). unfold grp, group. simpl cap_lookup.
+    f_equal. f_equal. f_equal.
+    - f_equal. rewrite L.
+      replace (A ++ B ++ sp3 ++ unit) with ((A ++ B ++ sp3) ++ unit ++ []) by (rewrite app_nil_r, <- !app_assoc; reflexivity).
+      replace (length A + length B + length sp3) with (length (A ++ B ++ sp3)) by (rewrite !app_length; lia).
+      apply substr_mid.
+    - f_equal. rewrite L. apply substr_mid.
+  Qed.
+End JMH.
+
 (** SavinaLog end to end at the level of lines: any sequence of rendered iterations with noise lines in between
     is parsed into exactly one data point per iteration, carrying the numeral that was printed. *)
 Section Savina.
